@@ -7,6 +7,7 @@ import (
 	"encoding/json"
 	"fmt"
 	"math/big"
+	"os"
 	"sort"
 	"strings"
 	"time"
@@ -77,6 +78,8 @@ type svSnap struct {
 	Bindings    map[string]svtypes.ServiceBinding // svc|provider
 	RawPrice    map[string]sdk.Coins              // svc|provider
 	Owner       map[string]string                 // provider -> owner
+	OwnerProv   map[string]bool                   // raw owner->provider index entries "owner|provider" (or "malformed:<hex>")
+	OwnerBind   map[string]bool                   // raw owner->binding index entries "owner|svc|provider"
 	Withdraw    map[string]string                 // owner -> withdraw address
 	Ctxs        map[string]svtypes.RequestContext
 	Reqs        map[string]svtypes.CompactRequest
@@ -114,8 +117,26 @@ func svTakeSnap(r *rig.Rig, ctx sdk.Context) *svSnap {
 		Bindings: map[string]svtypes.ServiceBinding{}, RawPrice: map[string]sdk.Coins{}, Owner: map[string]string{}, Withdraw: map[string]string{},
 		Ctxs: map[string]svtypes.RequestContext{}, Reqs: map[string]svtypes.CompactRequest{}, Active: map[string]bool{}, ActiveB: map[string][]svAB{},
 		Resps: map[string]svtypes.Response{}, Earned: map[string]sdk.Coins{}, OwnerEarned: map[string]sdk.Coins{},
-		NewMark: map[string]int64{}, ExpMark: map[string]int64{},
+		NewMark: map[string]int64{}, ExpMark: map[string]int64{}, OwnerProv: map[string]bool{}, OwnerBind: map[string]bool{},
 	}
+	r.WalkStore(ctx, svtypes.StoreKey, svtypes.OwnerProviderKey, func(key, _ []byte) bool {
+		if len(key) != 1+2*svtypes.AddrLen {
+			s.OwnerProv["malformed:"+svHex(key)] = true
+			return false
+		}
+		s.OwnerProv[sdk.AccAddress(key[1:1+svtypes.AddrLen]).String()+"|"+sdk.AccAddress(key[1+svtypes.AddrLen:]).String()] = true
+		return false
+	})
+	r.WalkStore(ctx, svtypes.StoreKey, svtypes.OwnerServiceBindingKey, func(key, _ []byte) bool {
+		// 0x03 | owner(20) | service name | 0x00 | provider(20)
+		if len(key) < 1+2*svtypes.AddrLen+2 || key[len(key)-svtypes.AddrLen-1] != 0 {
+			s.OwnerBind["malformed:"+svHex(key)] = true
+			return false
+		}
+		o, p := sdk.AccAddress(key[1:1+svtypes.AddrLen]).String(), sdk.AccAddress(key[len(key)-svtypes.AddrLen:]).String()
+		s.OwnerBind[o+"|"+string(key[1+svtypes.AddrLen:len(key)-svtypes.AddrLen-1])+"|"+p] = true
+		return false
+	})
 	k.IterateServiceBindings(ctx, func(b svtypes.ServiceBinding) bool {
 		s.Bindings[svBKey(b.ServiceName, b.Provider)] = b
 		if pa, err := sdk.AccAddressFromBech32(b.Provider); err == nil {
@@ -313,6 +334,40 @@ func svQueueCheck(s *svSnap, committed int64) []string {
 			add("active-marker-index-mismatch", "by-binding marker for request %s without by-id marker", id)
 		}
 	}
+	// the owner->provider and owner->binding indexes (read by withdraw-all and by the bindings-of-owner query) against the bindings
+	wantOP, wantOB := map[string]bool{}, map[string]bool{}
+	for _, b := range s.Bindings {
+		o := s.Owner[b.Provider]
+		if o == "" {
+			add("binding-provider-without-owner", "binding %s/%s: no owner recorded for the provider", b.ServiceName, b.Provider)
+			continue
+		}
+		if b.Owner != o {
+			add("binding-owner-differs-from-provider-owner", "binding %s/%s names owner %s, the provider's recorded owner is %s", b.ServiceName, b.Provider, b.Owner, o)
+		}
+		wantOP[o+"|"+b.Provider] = true
+		wantOB[o+"|"+b.ServiceName+"|"+b.Provider] = true
+	}
+	for k := range wantOP {
+		if !s.OwnerProv[k] {
+			add("owner-provider-index-entry-missing", "provider with a binding is not listed under its owner (owner|provider = %s)", k)
+		}
+	}
+	for k := range s.OwnerProv {
+		if !wantOP[k] {
+			add("owner-provider-index-entry-stray", "index lists %s but no binding of that provider has that owner", k)
+		}
+	}
+	for k := range wantOB {
+		if !s.OwnerBind[k] {
+			add("owner-binding-index-entry-missing", "binding is not listed under its owner (owner|service|provider = %s)", k)
+		}
+	}
+	for k := range s.OwnerBind {
+		if !wantOB[k] {
+			add("owner-binding-index-entry-stray", "index lists %s but there is no such binding", k)
+		}
+	}
 	sort.Strings(out)
 	return out
 }
@@ -339,6 +394,7 @@ type svCfg struct {
 	ModName    string // harness callback module name
 	Alt        string // non-base price denom
 	Stale      bool   // include zero-price bindings in a denom without exchange rate (lead S3)
+	GenesisBorn bool  // the chain starts with a service and bindings (owner != provider) that came in through genesis import
 }
 
 type svPlan struct {
@@ -403,7 +459,42 @@ func newSvWorkload(cfg svCfg) *svWorkload {
 
 func (w *svWorkload) Name() string { return "service" }
 
-func (w *svWorkload) Genesis(cdc codec.Codec, gs map[string]json.RawMessage) {}
+// Genesis: with cfg.GenesisBorn the chain starts with a service (svc-g) and one binding per provider account that exist
+// only through the module's genesis import (SetServiceBindingForGenesis), each provider owned by a different account.
+func (w *svWorkload) Genesis(cdc codec.Codec, gs map[string]json.RawMessage) {
+	if !w.cfg.GenesisBorn {
+		return
+	}
+	var ag authtypes.GenesisState
+	cdc.MustUnmarshalJSON(gs[authtypes.ModuleName], &ag)
+	accs, err := authtypes.UnpackAccounts(ag.Accounts)
+	if err != nil {
+		panic(err)
+	}
+	sort.Slice(accs, func(i, j int) bool { return accs[i].GetAccountNumber() < accs[j].GetAccountNumber() })
+	n := len(accs)
+	addr := func(i int) string { return accs[i%n].GetAddress().String() }
+	// the same role layout as Attach
+	owners, provs := []int{0, 1, 2}, []int{3, 4, 5, 6}
+	if n < 10 {
+		owners, provs = []int{0, 1}, []int{2, 3, 4}
+	}
+	var sg svtypes.GenesisState
+	cdc.MustUnmarshalJSON(gs[svtypes.ModuleName], &sg)
+	sg.Definitions = append(sg.Definitions, svtypes.ServiceDefinition{Name: "svc-g", Description: "d", Author: addr(owners[0]), AuthorDescription: "a", Schemas: svSchemas})
+	total := sdk.NewCoins()
+	for i, p := range provs {
+		dep := sdk.NewCoins(sdk.NewInt64Coin(rig.BondDenom, int64(15000+1000*i)))
+		sg.Bindings = append(sg.Bindings, svtypes.ServiceBinding{ServiceName: "svc-g", Provider: addr(p), Deposit: dep, Pricing: fmt.Sprintf(`{"price":"%d%s"}`, 3+i, rig.BondDenom), QoS: 1, Options: "{}", Available: true, Owner: addr(owners[i%len(owners)])})
+		total = total.Add(dep...)
+	}
+	gs[svtypes.ModuleName] = cdc.MustMarshalJSON(&sg)
+	var bg banktypes.GenesisState
+	cdc.MustUnmarshalJSON(gs[banktypes.ModuleName], &bg)
+	bg.Balances = append(bg.Balances, banktypes.Balance{Address: svDepositAcc, Coins: total})
+	bg.Supply = bg.Supply.Add(total...)
+	gs[banktypes.ModuleName] = cdc.MustMarshalJSON(&bg)
+}
 
 type svCreateArgs struct {
 	Service   string   `json:"service"`
@@ -503,6 +594,21 @@ func (w *svWorkload) Attach(run *ev.Run, r *rig.Rig) {
 		_, err = k.CreateRequestContext(ctx, a.Service, pds, cons, svIOEmpty, cap, a.Timeout, a.Repeated, a.Freq, a.Total, st, a.Threshold, a.Module)
 		return err
 	}
+	// the keeper's withdraw-everything branch (no provider given): the message handler rejects an empty provider, other
+	// modules and the CLI-documented form reach it through the keeper
+	r.Ops["svc.withdrawall"] = func(ctx sdk.Context, raw json.RawMessage) error {
+		var a struct {
+			Owner string `json:"owner"`
+		}
+		if err := json.Unmarshal(raw, &a); err != nil {
+			return err
+		}
+		o, err := sdk.AccAddressFromBech32(a.Owner)
+		if err != nil {
+			return err
+		}
+		return k.WithdrawEarnedFees(ctx, o, sdk.AccAddress{})
+	}
 	r.Ops["svc.modop"] = func(ctx sdk.Context, raw json.RawMessage) error {
 		var a svModOpArgs
 		if err := json.Unmarshal(raw, &a); err != nil {
@@ -571,12 +677,15 @@ func (w *svWorkload) allProviders() []*rig.Account {
 
 func (w *svWorkload) services() []string {
 	s := []string{"svc-a", "svc-b"}
+	if w.cfg.GenesisBorn {
+		s = append(s, "svc-g")
+	}
 	return s
 }
 
 // mine tells whether a service belongs to this workload (on a shared chain it leaves the others alone).
 func (w *svWorkload) mine(svc string) bool {
-	return svc == "svc-a" || svc == "svc-b" || svc == "svc-rate"
+	return svc == "svc-a" || svc == "svc-b" || svc == "svc-rate" || (svc == "svc-g" && w.cfg.GenesisBorn)
 }
 
 func (w *svWorkload) myBindings(v *svSnap) []svtypes.ServiceBinding {
@@ -648,6 +757,10 @@ func (w *svWorkload) txCtxOp(signer *rig.Account, op, ctxID, hostile string, upd
 
 func (w *svWorkload) txWithdraw(owner *rig.Account, provider, hostile string) rig.Tx {
 	return w.r.Mk(owner, &svTag{Kind: "withdraw", Hostile: hostile, Note: provider}, &svtypes.MsgWithdrawEarnedFees{Owner: owner.Addr.String(), Provider: provider})
+}
+
+func (w *svWorkload) txWithdrawAll(owner *rig.Account) rig.Tx {
+	return w.r.InjectOp(owner, &svTag{Kind: "withdraw", Note: "keeper-all-providers", Actor: owner.Addr.String()}, "svc.withdrawall", map[string]string{"owner": owner.Addr.String()})
 }
 
 func (w *svWorkload) txModCreate(carrier *rig.Account, a svCreateArgs, note string) rig.Tx {
@@ -1028,6 +1141,8 @@ func (w *svWorkload) script(v *svSnap) []rig.Tx {
 	case 8:
 		txs = append(txs, gapOp(7, "start")...)
 	case 9:
+		// everything o1's providers earned so far, through the owner->provider index
+		txs = append(txs, w.txWithdrawAll(o1))
 		txs = append(txs, r.Mk(o1, &svTag{Kind: "disable"}, &svtypes.MsgDisableServiceBinding{ServiceName: "svc-a", Provider: P[1].Addr.String(), Owner: o1.Addr.String()}))
 	case 10:
 		if id := findCtx(c1, "", func(rc svtypes.RequestContext) bool { return rc.Repeated && rc.RepeatedFrequency == 3 }); id != "" {
@@ -1370,6 +1485,8 @@ func (w *svWorkload) intentAt(v *svSnap, ix int) (rig.Tx, bool) {
 			return w.txWithdraw(w.consumers[1], p, "not-owner"), true
 		case rng.Intn(8) == 0:
 			return w.txWithdraw(o, "", "all-providers"), true
+		case rng.Intn(5) == 0:
+			return w.txWithdrawAll(o), true
 		}
 		return w.txWithdraw(o, p, ""), true
 	case 10: // params
@@ -1512,6 +1629,11 @@ func runService(run *ev.Run, c int, mode string) {
 		// the bare shared-chain workload (no prologue) under the same monitors
 		cfg.Scripted, cfg.Oracle, regime = false, false, "unscripted"
 	}
+	// every other case starts from a genesis that already holds a service and bindings (import path of the binding indexes)
+	cfg.GenesisBorn = c%2 == 1
+	if cfg.GenesisBorn {
+		run.Count("genesis-born-bindings-chains", 1)
+	}
 	w := newSvWorkload(cfg)
 	bal := sdk.NewCoins()
 	for _, dn := range []string{rig.BondDenom, "tka", "tkb"} {
@@ -1564,7 +1686,7 @@ func runService(run *ev.Run, c int, mode string) {
 		return
 	}
 	if mode == "C07" {
-		for _, n := range []string{"respond-ok", "end-block-new-requests", "end-block-discounted-request", "end-block-expired-request", "slash-nonzero", "withdraw-ok", "refund-deposit-ok", "bind-ok", "consumer-ran-dry"} {
+		for _, n := range []string{"respond-ok", "end-block-new-requests", "end-block-discounted-request", "end-block-expired-request", "slash-nonzero", "withdraw-ok", "withdraw-all-providers-nonzero", "refund-deposit-ok", "bind-ok", "consumer-ran-dry"} {
 			run.Require(n, 1)
 		}
 		if cfg.Oracle {
@@ -1765,7 +1887,11 @@ func (d *svDirector) c07Tx(br *rig.BlockRecord, tx *rig.TxRecord, tag *svTag, pr
 	}
 	kind := tag.Kind
 	detail := map[string]any{"msgs": msgBrief(tx.Msgs), "height": br.Height}
-	switch m := tx.Msgs[0].(type) {
+	first := tx.Msgs[0]
+	if tag.Kind == "withdraw" && tag.Note == "keeper-all-providers" {
+		first = &svtypes.MsgWithdrawEarnedFees{Owner: tag.Actor} // carried out through the keeper, same expected effect
+	}
+	switch m := first.(type) {
 	case *svtypes.MsgBindService:
 		move(m.Owner, svDepositAcc, m.Deposit)
 		addTo(expDep, svBKey(m.ServiceName, m.Provider), m.Deposit, 1)
@@ -1828,7 +1954,13 @@ func (d *svDirector) c07Tx(br *rig.BlockRecord, tx *rig.TxRecord, tag *svTag, pr
 		}
 		move(svRequestAcc, to, total)
 		run.Count("withdraw-ok", 1)
-		run.Class("withdraw", fmt.Sprint("denoms=", len(total)), fmt.Sprint("redirected=", to != m.Owner), "amt="+magClass(svAmt0(total)))
+		if m.Provider == "" {
+			run.Count("withdraw-all-providers-ok", 1)
+			if !total.IsZero() {
+				run.Count("withdraw-all-providers-nonzero", 1)
+			}
+		}
+		run.Class("withdraw", fmt.Sprint("all=", m.Provider == ""), fmt.Sprint("denoms=", len(total)), fmt.Sprint("redirected=", to != m.Owner), "amt="+magClass(svAmt0(total)))
 		run.Sample("withdraw", map[string]any{"height": br.Height, "owner": m.Owner, "provider": m.Provider, "to": to, "amount": total.String()})
 	case *banktypes.MsgSend:
 		if m.FromAddress != m.ToAddress {
@@ -2511,6 +2643,9 @@ func (d *svDirector) observe(br *rig.BlockRecord) {
 		}
 		run.Count(tag.Kind+"-"+okc, 1)
 		run.Op("h=%d #%d %s/%s%s %s ok=%v %s", br.Height, tx.Index, tag.Kind, tag.Op, tag.Hostile, msgBrief(tx.Msgs), tx.OK(), logBrief(tx))
+		if tag.Kind == "withdraw" && os.Getenv("VERIF_DEBUG") != "" {
+			fmt.Fprintf(os.Stderr, "DBG h=%d %s %s ok=%v %s\n", br.Height, tag.Hostile, msgBrief(tx.Msgs), tx.OK(), logBrief(tx))
+		}
 		pre := snap(tx.Pre)
 		if pre == nil {
 			continue
